@@ -89,4 +89,10 @@ func exprs(a, b int, xs []int, c chan int, p *int) {
 	_ = time.Since(a)
 	_ = time.Now().Add(a)
 	_ = clock.Now().Sub(a)
+	// a sign in front of a literal
+	_ = -1 * a
+	_ = 1 * a
+	_ = +1 * b
+	_ = scale(a, -1, b)
+	_ = scale(a, 1, b)
 }
